@@ -159,7 +159,7 @@ func (m *c05Model) admits(cd *c05Cand) bool {
 		case cd.null:
 			return false
 		case m.knownNum != nil:
-			return cd.num != nil && cd.num.Cmp(m.knownNum) == 0
+			return cd.num != nil && numCmp(cd.num, m.knownNum) == 0
 		case m.knownStr != nil:
 			return cd.str != nil && *cd.str == *m.knownStr
 		}
@@ -177,13 +177,13 @@ func (m *c05Model) admits(cd *c05Cand) bool {
 	switch m.t.K {
 	case KNumber:
 		if m.hasLo {
-			c := cd.num.Cmp(m.lo)
+			c := numCmp(cd.num, m.lo)
 			if c < 0 || (c == 0 && !m.loInc) {
 				return false
 			}
 		}
 		if m.hasHi {
-			c := cd.num.Cmp(m.hi)
+			c := numCmp(cd.num, m.hi)
 			if c > 0 || (c == 0 && !m.hiInc) {
 				return false
 			}
@@ -200,7 +200,7 @@ func tighterLo(hasOld bool, old *big.Float, oldInc bool, b *big.Float, inc bool)
 	if !hasOld {
 		return b, inc
 	}
-	c := b.Cmp(old)
+	c := numCmp(b, old)
 	switch {
 	case c > 0:
 		return b, inc
@@ -214,7 +214,7 @@ func tighterHi(hasOld bool, old *big.Float, oldInc bool, b *big.Float, inc bool)
 	if !hasOld {
 		return b, inc
 	}
-	c := b.Cmp(old)
+	c := numCmp(b, old)
 	switch {
 	case c < 0:
 		return b, inc
@@ -225,7 +225,7 @@ func tighterHi(hasOld bool, old *big.Float, oldInc bool, b *big.Float, inc bool)
 }
 
 func intervalEmpty(lo *big.Float, loInc bool, hi *big.Float, hiInc bool) bool {
-	c := lo.Cmp(hi)
+	c := numCmp(lo, hi)
 	return c > 0 || (c == 0 && !(loInc && hiInc))
 }
 
@@ -255,8 +255,8 @@ func (m *c05Model) expect(k c05Call) (int, func()) {
 			if k.boundKnd != 0 {
 				return expAccept, nop
 			}
-			b := canonNum(k.num)
-			c := b.Cmp(m.knownNum)
+			b := k.num.Float()
+			c := numCmp(b, m.knownNum)
 			if c > 0 || (c == 0 && !k.inc) {
 				return expReject, nop
 			}
@@ -265,14 +265,14 @@ func (m *c05Model) expect(k c05Call) (int, func()) {
 			if k.boundKnd != 0 {
 				return expAccept, nop
 			}
-			b := canonNum(k.num)
-			c := b.Cmp(m.knownNum)
+			b := k.num.Float()
+			c := numCmp(b, m.knownNum)
 			if c < 0 || (c == 0 && !k.inc) {
 				return expReject, nop
 			}
 			return expAccept, nop
 		case opRangeInc:
-			if canonNum(k.num).Cmp(m.knownNum) > 0 || canonNum(k.num2).Cmp(m.knownNum) < 0 {
+			if numCmp(k.num.Float(), m.knownNum) > 0 || numCmp(k.num2.Float(), m.knownNum) < 0 {
 				return expReject, nop
 			}
 			return expAccept, nop
@@ -326,7 +326,7 @@ func (m *c05Model) expect(k c05Call) (int, func()) {
 		if k.boundKnd != 0 {
 			return expAccept, nop
 		}
-		nl, ni := tighterLo(m.hasLo, m.lo, m.loInc, canonNum(k.num), k.inc)
+		nl, ni := tighterLo(m.hasLo, m.lo, m.loInc, k.num.Float(), k.inc)
 		if m.hasHi && intervalEmpty(nl, ni, m.hi, m.hiInc) {
 			return soften(expReject, nop)
 		}
@@ -335,14 +335,14 @@ func (m *c05Model) expect(k c05Call) (int, func()) {
 		if k.boundKnd != 0 {
 			return expAccept, nop
 		}
-		nh, ni := tighterHi(m.hasHi, m.hi, m.hiInc, canonNum(k.num), k.inc)
+		nh, ni := tighterHi(m.hasHi, m.hi, m.hiInc, k.num.Float(), k.inc)
 		if m.hasLo && intervalEmpty(m.lo, m.loInc, nh, ni) {
 			return soften(expReject, nop)
 		}
 		return expAccept, func() { m.hasHi, m.hi, m.hiInc = true, nh, ni }
 	case opRangeInc:
-		nl, nli := tighterLo(m.hasLo, m.lo, m.loInc, canonNum(k.num), true)
-		nh, nhi := tighterHi(m.hasHi, m.hi, m.hiInc, canonNum(k.num2), true)
+		nl, nli := tighterLo(m.hasLo, m.lo, m.loInc, k.num.Float(), true)
+		nh, nhi := tighterHi(m.hasHi, m.hi, m.hiInc, k.num2.Float(), true)
 		if intervalEmpty(nl, nli, nh, nhi) {
 			return soften(expReject, nop)
 		}
@@ -523,7 +523,7 @@ func simC05Histories(c *Ctx) {
 		switch t.K {
 		case KNumber:
 			nd := NumDesc{Mode: NumParse, Text: numTexts[c.G(12)]}
-			m.knownNum = canonNum(nd)
+			m.knownNum = nd.Float()
 			start = nd.Value()
 		case KString:
 			s := nfc(strPool[c.G(len(strPool))])
@@ -665,7 +665,7 @@ func c05Candidates(c *Ctx, t *TDesc) []*c05Cand {
 					nd.Mode = NumParse
 				}
 			}
-			add(&c05Cand{v: nd.Value(), desc: nd.String(), num: canonNum(nd), sameType: true})
+			add(&c05Cand{v: nd.Value(), desc: nd.String(), num: nd.Float(), sameType: true})
 		}
 		add(&c05Cand{v: cty.StringVal("1"), desc: "string \"1\"", sameType: false})
 	case KString:
@@ -725,7 +725,7 @@ func c05CheckSnapshot(c *Ctx, m *c05Model, start, v cty.Value, cands []*c05Cand,
 		case m.null != 2:
 			why = "null is still admitted"
 		case m.t.K == KNumber:
-			ok = m.hasLo && m.hasHi && m.loInc && m.hiInc && m.lo.Cmp(m.hi) == 0 && canonFloat(uv.AsBigFloat()).Cmp(m.lo) == 0
+			ok = m.hasLo && m.hasHi && m.loInc && m.hiInc && numCmp(m.lo, m.hi) == 0 && numCmp(uv.AsBigFloat(), m.lo) == 0
 			why = "a known number needs equal inclusive bounds equal to it"
 		case m.t.K == KList || m.t.K == KSet || m.t.K == KMap:
 			if m.minLen == m.maxLen {
@@ -761,7 +761,7 @@ func c05CheckSnapshot(c *Ctx, m *c05Model, start, v cty.Value, cands []*c05Cand,
 		observe(c, lo, "ValueRange.NumberLowerBound")
 		observe(c, hi, "ValueRange.NumberUpperBound")
 		if m.hasLo {
-			if !lo.IsKnown() || canonFloat(lo.AsBigFloat()).Cmp(m.lo) != 0 || loInc != m.loInc {
+			if !lo.IsKnown() || numCmp(lo.AsBigFloat(), m.lo) != 0 || loInc != m.loInc {
 				c.Fail("C05", "range-bound", "range:lower"+tieSig(m),
 					"after %s Range().NumberLowerBound() = (%s, %t) but the stated constraints imply (%s, %t)\nmodel: %s",
 					last, safeGoString(lo), loInc, m.lo.Text('g', 30), m.loInc, m.describe())
@@ -770,7 +770,7 @@ func c05CheckSnapshot(c *Ctx, m *c05Model, start, v cty.Value, cands []*c05Cand,
 			c.Fail("C05", "range-bound", "range:lower-spurious", "after %s Range() reports lower bound %s but none was stated", last, safeGoString(lo))
 		}
 		if m.hasHi {
-			if !hi.IsKnown() || canonFloat(hi.AsBigFloat()).Cmp(m.hi) != 0 || hiInc != m.hiInc {
+			if !hi.IsKnown() || numCmp(hi.AsBigFloat(), m.hi) != 0 || hiInc != m.hiInc {
 				c.Fail("C05", "range-bound", "range:upper"+tieSig(m),
 					"after %s Range().NumberUpperBound() = (%s, %t) but the stated constraints imply (%s, %t)\nmodel: %s",
 					last, safeGoString(hi), hiInc, m.hi.Text('g', 30), m.hiInc, m.describe())
@@ -837,7 +837,7 @@ func c05CheckSnapshot(c *Ctx, m *c05Model, start, v cty.Value, cands []*c05Cand,
 }
 
 func tieSig(m *c05Model) string {
-	if m.hasLo && m.hasHi && m.lo.Cmp(m.hi) == 0 {
+	if m.hasLo && m.hasHi && numCmp(m.lo, m.hi) == 0 {
 		return ":tie"
 	}
 	return ""
@@ -1091,4 +1091,30 @@ func simC05KnownSets(c *Ctx) {
 		}
 	}
 	c.NonTrivial()
+}
+
+// numCmp is go-cty's order on numbers as documented: two numbers with the same exact integer
+// value or the same shortest decimal rendering are equal (CHANGELOG 1.9.0) and equal numbers are
+// never ordered; unequal numbers are ordered by value. (The C05 model reasons with this order:
+// a low-precision number may lie on the other side of a third number than its own rendering
+// does, and which of the two the refinement code goes by is not something the property states.)
+func numCmp(a, b *big.Float) int {
+	if floatKey(a) == floatKey(b) {
+		return 0
+	}
+	return a.Cmp(b)
+}
+
+func floatKey(f *big.Float) string {
+	if f.IsInf() {
+		if f.Signbit() {
+			return "-Inf"
+		}
+		return "+Inf"
+	}
+	if f.IsInt() {
+		i, _ := f.Int(nil)
+		return i.String()
+	}
+	return f.Text('f', -1)
 }
